@@ -38,4 +38,19 @@ var properties = []Property{
 		},
 		Floors: map[string]int64{"reads": 20000, "frames_processed": 5000, "errors_reported": 5000, "cancellations": 1000},
 	},
+	{
+		ID: "C07", Title: "Packet pipeline: nothing lost, duplicated or altered before the wire",
+		Level: "exploration",
+		LevelText: "Runtime monitoring under stress: the real request stages, N packet-building workers (1..64), merger, sender, receiver and error merger run under the race detector with harness-owned recorders at both ends (unique-id request stream with error positions and bursts >100; a wire that copies bytes at call time and re-reads the caller's buffer on return, can fail and stall); offline oracle: written multiset == built multiset byte for byte, one error per failed request/build/write by identity, completion after the last write on one logical clock. Schedules are sampled (GOMAXPROCS 1/2/4/16, injected yields/sleeps at boundaries); evidence reports distinct wire orders seen.",
+		LevelNote: "trusted: recorder objects in lab/command/rig_test.go (mutex/atomic protected, themselves under -race); a race report anywhere in the workload is a violation",
+		Technique: "runtime monitoring: Go race detector + exactly-once/conservation oracle over recorded build/write/error events with unique ids",
+		Rule: "seeded pipelines over (stream length 0..20000, workers {1,2,3,8,16,64}, 7 fillers incl. VPN mode and variable-length synthetic, error ratios and bursts >100, failing/slow writer, slow error consumer, optional ARP-cache and exclusion stages); non-trivial = >=2 requests and (>1 worker or any injected failure); distinct by full case tuple",
+		Explanation: "schedules are sampled, not enumerated; held on the interleavings observed",
+		Assumptions: commonAssumptions,
+		RaceDeciding: true,
+		Units: []Unit{
+			{Name: "pipeline", Kind: "lab", Pkg: "command", Test: "TestVerifC07", BatchesQuick: 16, BatchesThorough: 64, TimeoutS: 1200, TimeoutThoroughS: 7200, GoMaxProcs: []int{16, 4, 2, 1, 16, 8, 3, 16}},
+		},
+		Floors: map[string]int64{"frames_written": 100000, "errors_received": 1000, "distinct_arrival_orders": 50, "wire_order_inversions": 100},
+	},
 }
